@@ -30,7 +30,13 @@ CONFIGS = {
 def _build(case):
     spec = case["spec"]
     env = mdp.make_env(spec)
-    policy = onpolicy.table_policy(env, spec, case["policy"])
+    if case.get("policy_kind") == "mlp":
+        # the library's own (stateless) MLP actor-critic; log_std high enough that Box samples leave the bounds
+        from lerax.policy import MLPActorCriticPolicy
+
+        policy = MLPActorCriticPolicy(env, feature_size=4, feature_width=8, feature_depth=1, value_width=8, value_depth=1, action_width=8, action_depth=1, log_std_init=case.get("log_std", 0.5), key=jr.key(case["pkey"]))
+    else:
+        policy = onpolicy.table_policy(env, spec, case["policy"])
     return spec, env, policy, mdp.Interp(spec)
 
 
@@ -40,6 +46,8 @@ def oracle_rollout(ctx: Ctx, case):
     algo = onpolicy.with_gamma(onpolicy.algo_template(case["algo"], 1, T), case["gamma"], case["lam"] if case["algo"] != "REINFORCE" else None)
     s0, c0 = case["start"]
     ss = onpolicy.step_state(spec, s0, c0, c0)
+    if case.get("policy_kind") == "mlp":
+        ss = eqx.tree_at(lambda x: x.policy_state, ss, None, is_leaf=lambda x: x is None)
     ss2, buf = onpolicy.collect(algo, env, policy, ss, jr.key(case["key"]))
     flags, env_r, ends, _ = onpolicy.walk_rollout(ctx, spec, interp, policy, case["gamma"], (s0, c0, c0, 0.0), buf, ss2, tags={"algo": case["algo"]})
     # first PPO ratio is 1 / approx_kl 0 on the fresh buffer (through the real loss)
@@ -149,7 +157,7 @@ def policy_tables(draw, spec, far_outside=False):
 
 
 @st.composite
-def rollout_cases(draw, config, T, tl, algos=("PPO", "A2C", "REINFORCE"), far_outside=False, E=None):
+def rollout_cases(draw, config, T, tl, algos=("PPO", "A2C", "REINFORCE"), far_outside=False, E=None, policy_kind="table"):
     cfg = CONFIGS[config]
     spec = draw(
         mdp.mdp_specs(
@@ -176,6 +184,8 @@ def rollout_cases(draw, config, T, tl, algos=("PPO", "A2C", "REINFORCE"), far_ou
     }
     if E is not None:
         case["E"] = E
+    if policy_kind == "mlp":
+        case.update(policy_kind="mlp", pkey=draw(st.integers(0, 2**31 - 2)), log_std=draw(st.sampled_from([0.0, 0.5, 1.0])))
     return case
 
 
@@ -209,6 +219,8 @@ def run(ctx: Ctx):
     n = ctx.n(120, 2500)
     for config, T, tl in plan:
         ctx.run_given("rollout", rollout_cases(config, T, tl), oracle_rollout, n)
+    for config, T, tl in [("disc-onehot", 16, "some"), ("box-scalar", 16, "some"), ("disc-dict", 5, "some"), ("box-vec2", 5, "none")] + ([("disc-masked", 16, "some"), ("disc-tuple", 5, "some")] if not quick else []):
+        ctx.run_given("rollout", rollout_cases(config, T, tl, policy_kind="mlp"), oracle_rollout, ctx.n(60, 1200))
     for config in ("box-scalar", "box-vec2"):
         ctx.run_given("raw_action", rollout_cases(config, 8, "some", algos=("PPO",), far_outside=True), oracle_raw_action, ctx.n(60, 1000))
     it_plan = [("disc-onehot", "PPO", 3, 8), ("box-scalar", "A2C", 3, 5), ("disc-masked", "REINFORCE", 1, 8)]
